@@ -71,6 +71,44 @@ theorem scan_line_width {σ : Type} (o : σ → List Cell → Nat × Bool × σ)
     (h : scan o width rest st = .line rest' st' tok) : lineWidthOK width tok = true :=
   scan_width o width rest st rest' st' tok h
 
+/-- `hard_break_ends_line` (structure of a line): a `Scan` takes zero or more whole segments, *none
+of them with the must-break flag* (`Taken`: every step has `br = false`), and then ends in exactly
+one of three ways (`Ending`): the next segment is left untouched for the next line; or it is taken
+whole as the last segment of the line and the next `Scan` starts right behind it; or it is divided.
+Hence a segment with a hard break can only be the last one of its line: the line ends with it.
+With `rich_segment_terminator` (a rich-text segment contains a terminator only as its last cell and
+then has the flag) this says that a line terminator always ends the current line. -/
+theorem hard_break_ends_line {σ : Type} (o : σ → List Cell → Nat × Bool × σ) (width : Nat)
+    (rest : List Cell) (st : σ) (rest' : List Cell) (st' : σ) (tok : List Cell)
+    (h : scan o width rest st = .line rest' st' tok) :
+    ∃ st1 rest1, Taken o st rest st1 rest1 ∧ Ending o width st1 rest1 st' rest' :=
+  VaxisModel.Lemmas.Wrap.scan_structure o width rest st rest' st' tok h
+
+/-- `no_needless_split`: a segment whose word part fits on a line of its own (`≤ width`) is never
+divided between two lines: whenever a `Scan` stops inside a segment (the new `rest` is neither the
+start of that segment nor what follows it), that segment's word part is wider than `width`. -/
+theorem no_needless_split {σ : Type} (o : σ → List Cell → Nat × Bool × σ) (width : Nat)
+    (rest : List Cell) (st : σ) (rest' : List Cell) (st' : σ) (tok : List Cell)
+    (h : scan o width rest st = .line rest' st' tok) :
+    ∃ st1 rest1, Taken o st rest st1 rest1 ∧
+      (sumW (trimRight (rest1.take (o st1 rest1).1)) ≤ width →
+        rest' = rest1 ∨ rest' = rest1.drop (o st1 rest1).1) := by
+  obtain ⟨st1, rest1, htk, hend⟩ := VaxisModel.Lemmas.Wrap.scan_structure o width rest st rest' st' tok h
+  refine ⟨st1, rest1, htk, ?_⟩
+  intro hfit
+  cases hend with
+  | left h1 _ _ => exact Or.inl h1
+  | last h1 _ _ => exact Or.inr h1
+  | split hw _ _ => omega
+
+/-- richtext: a segment of `firstLineSegment` contains a line terminator only as its last cell, and
+then it has the must-break flag. -/
+theorem rich_segment_terminator (lb : Nat → Nat → Bool) (l : List Cell) :
+    (∀ c ∈ (l.take (firstLineSegment lb true l).1).dropLast, c.term = false) ∧
+    (∀ c, (l.take (firstLineSegment lb true l).1).getLast? = some c → c.term = true →
+      (firstLineSegment lb true l).2 = true) :=
+  firstLineSegment_term lb l true (by intro h; cases h)
+
 /-- richtext: the transcribed `firstLineSegment` meets the oracle hypotheses for every pairwise
 line-break function, so the theorems above hold for `richLines` unconditionally. -/
 theorem rich_oracle_ok (lb : Nat → Nat → Bool) : OracleOK (richOracle lb) := richOracle_ok lb
